@@ -39,6 +39,7 @@ macro_rules! dispatch {
             "C14" => runner::$f::<props::c14::P>($($arg),*),
             "C15" => runner::$f::<props::c15::P>($($arg),*),
             "C18" => runner::$f::<props::c18::P>($($arg),*),
+            "C19" => runner::$f::<props::c19::P>($($arg),*),
             "C20" => runner::$f::<props::c20::P>($($arg),*),
             other => {
                 eprintln!("unknown property {other}");
